@@ -15,6 +15,28 @@
 //   - errors are `Option String` (nil = none; a package-level error variable is its name).
 //   - out-of-range slice expressions and nil dereferences (Go: panic) are NOT modelled: take/drop.
 //   - external calls: encoding/pem.Decode is a field of the `Ext` parameter.
+//   - opaque targets (targets.json "opaque": true) are fields of a generated structure `<pkg>.Ext` (only
+//     functions of <pkg> itself) or `<pkg>.Externals` (functions of other packages too), where <pkg> is the
+//     package of the *calling* translated function; a field is named after the function (`recv_func`),
+//     prefixed with the callee's package when that is a different one (`pkcs7_SignPKCS7`).
+//     An opaque function is a function of its arguments; a pointer to a cryptobyte.String / a reader that
+//     it receives is returned as a new value in front of its results. A nullary opaque function
+//     (util.NewEFITime: reads the clock) is a constant of the Ext value, so a translated function may
+//     reach at most one call of it (checked: otherwise the function is rejected).
+//   - a value of a (non-error) interface type of the library (efivar.Marshallable) received as a parameter
+//     is a structure with one function field per method; every method takes the index of the syntactic
+//     call site inside the calling function first (0, 1, … in source order), so two calls of the same
+//     method on the same value are NOT assumed to behave the same way (the object may have state). A
+//     buffer/reader handed to a method is returned as its new value: an arbitrary function of the old
+//     content (nothing says that the method only appends). Such calls inside loops are rejected.
+//   - an interface-typed *result* is represented by the concrete value that the function stores in it (all
+//     `return`s must store the same concrete type; `nil` is its zero value — callers look at the error).
+//   - a named type defined as bytes.Buffer (`type efibytes bytes.Buffer`) is a reader/writer like
+//     bytes.Buffer; conversions between the two do nothing.
+//   - Go strings are Lean `String`s; `[]byte(s)` is `strBytes s`, the UTF-8 encoding (Go strings that are
+//     not valid UTF-8 are outside the model).
+//   - crypto.Signer is an opaque handle (`CryptoSigner`), cryptobyte.String a byte list,
+//     asn1.ObjectIdentifier a list of Int (only outside struct fields, where they stay `Opaque`).
 package main
 
 import (
@@ -54,6 +76,11 @@ var (
 	pkgs    = map[string]*pkgInfo{} // by dir
 	byTypes = map[string]*pkgInfo{} // by import path
 	modPath = "github.com/foxboron/go-uefi/"
+	// importer used for every package, so that a package met through a type can be loaded on demand
+	gImp types.Importer
+	// >0 while the type of a struct field is computed: types that were outside the subset before the
+	// SignEFIVariable extension stay `Opaque` there, so that the existing structures do not change
+	fieldDepth int
 )
 
 type unsupported struct{ msg string }
@@ -116,6 +143,7 @@ type fnDecl struct {
 	usesFuel bool   // contains (transitively) an unbounded `for` loop: takes a fuel argument
 	opaque   bool   // external: calls go through <pkg>.Ext
 	usesX    string // package whose Ext structure the function takes ("" = none)
+	xConflict string // set when the function would need two different Ext structures
 	leanName string
 	out      string // Lean source
 	deps     []string
@@ -196,6 +224,25 @@ func leanType(n ast.Node, t types.Type) string {
 		if obj.Pkg() != nil && obj.Pkg().Path() == "crypto/x509" && obj.Name() == "Certificate" {
 			return "X509Cert"
 		}
+		if obj.Pkg() != nil && fieldDepth == 0 {
+			switch obj.Pkg().Path() + "." + obj.Name() {
+			case "crypto.Signer":
+				// an opaque handle: the translated code can only pass it on to external functions
+				return "CryptoSigner"
+			case "golang.org/x/crypto/cryptobyte.String":
+				return "(List UInt8)"
+			case "encoding/asn1.ObjectIdentifier":
+				return "(List Int)"
+			}
+		}
+		if _, ok := byTypes[obj.Pkg().Path()]; !ok {
+			// a package of the library that is met through a type only (efivar): loaded on demand
+			if path := obj.Pkg().Path(); strings.HasPrefix(path, modPath) && gImp != nil && repoRoot != "" {
+				if st, err := os.Stat(repoRoot + "/" + strings.TrimPrefix(path, modPath)); err == nil && st.IsDir() {
+					loadPkg(repoRoot, strings.TrimPrefix(path, modPath), gImp)
+				}
+			}
+		}
 		if _, ok := byTypes[obj.Pkg().Path()]; !ok {
 			fail(n, "type %s from a package that is not translated", tt.String())
 		}
@@ -207,6 +254,11 @@ func leanType(n ast.Node, t types.Type) string {
 		case *types.Basic, *types.Slice:
 			ensureAbbrev(n, nm, u)
 			return nm
+		case *types.Interface:
+			if fieldDepth == 0 {
+				ensureIface(n, nm, u)
+				return nm
+			}
 		}
 	}
 	fail(n, "unsupported type %s", t.String())
@@ -232,7 +284,9 @@ func ensureStruct(n ast.Node, nm string, s *types.Struct) {
 // fieldType: like leanType, but a field of a type outside the supported subset is kept as `Opaque`
 // (a function that reads such a field is then untranslatable, one that ignores it is not)
 func fieldType(n ast.Node, t types.Type) (lt string) {
+	fieldDepth++
 	defer func() {
+		fieldDepth--
 		if r := recover(); r != nil {
 			if _, ok := r.(unsupported); ok {
 				lt = "Opaque"
@@ -242,6 +296,122 @@ func fieldType(n ast.Node, t types.Type) (lt string) {
 		}
 	}()
 	return leanType(n, t)
+}
+
+// ---- interface values received as parameters ---------------------------------------------------
+
+// ifaceMethodType: the Lean type of the field for one interface method:
+//   Nat (call site) → parameters → (new values of the reader parameters × results)
+// mut lists the indices of the parameters that are returned as new values.
+func ifaceMethodType(n ast.Node, sig *types.Signature) (lt string, mut []int) {
+	tys := []string{"Nat"}
+	var rs []string
+	for i := 0; i < sig.Params().Len(); i++ {
+		pt := sig.Params().At(i).Type()
+		if isReaderType(pt) {
+			mut = append(mut, i)
+			rs = append(rs, leanType(n, pt))
+		} else if _, isPtr := pt.(*types.Pointer); isPtr {
+			fail(n, "interface method with a pointer parameter that is not a reader/writer (%s)", pt)
+		}
+		tys = append(tys, leanType(n, pt))
+	}
+	if sig.Variadic() {
+		fail(n, "variadic interface method")
+	}
+	for i := 0; i < sig.Results().Len(); i++ {
+		rs = append(rs, leanType(n, sig.Results().At(i).Type()))
+	}
+	if len(rs) == 0 {
+		fail(n, "interface method without results and without a reader/writer parameter: no effect on the translated state")
+	}
+	return strings.Join(append(tys, strings.Join(rs, " × ")), " → "), mut
+}
+
+func ensureIface(n ast.Node, nm string, it *types.Interface) {
+	if _, ok := structs[nm]; ok {
+		return
+	}
+	structs[nm] = ""
+	var b strings.Builder
+	fmt.Fprintf(&b, "/-- a value of the interface type %s as the translated code can use it: one function per method.\n    The first argument is the index of the syntactic call site in the calling function (two calls on the\n    same value need not behave alike); a buffer handed to a method comes back as its new content. -/\nstructure %s where\n", nm, nm)
+	for i := 0; i < it.NumMethods(); i++ {
+		m := it.Method(i)
+		ty := func() (s string) {
+			defer func() {
+				if r := recover(); r != nil {
+					if _, ok := r.(unsupported); ok {
+						s = "Opaque"
+						return
+					}
+					panic(r)
+				}
+			}()
+			s, _ = ifaceMethodType(n, m.Type().(*types.Signature))
+			return
+		}()
+		fmt.Fprintf(&b, "  %s : %s\n", lname(m.Name()), ty)
+	}
+	structs[nm] = b.String()
+	structOrd = append(structOrd, nm)
+}
+
+// ifaceCall: is c a method call on a value of a (non-error) interface type? Returns the receiver expression,
+// the method and the interface's Lean name.
+func (t *fnTrans) ifaceCall(c *ast.CallExpr) (ast.Expr, *types.Func, bool) {
+	se, ok := c.Fun.(*ast.SelectorExpr)
+	if !ok {
+		return nil, nil, false
+	}
+	sel, ok := t.pi.info.Selections[se]
+	if !ok || sel.Kind() != types.MethodVal {
+		return nil, nil, false
+	}
+	rt := sel.Recv()
+	if isErrorType(rt) || isReaderType(rt) {
+		return nil, nil, false
+	}
+	if _, isI := rt.Underlying().(*types.Interface); !isI {
+		return nil, nil, false
+	}
+	if _, named := rt.(*types.Named); !named {
+		return nil, nil, false
+	}
+	fo, ok := sel.Obj().(*types.Func)
+	return se.X, fo, ok
+}
+
+// ifaceSites numbers the interface-method call sites of a function body in source order; a site inside a
+// loop or a closure has no number (one index cannot stand for several executions): -1.
+func ifaceSites(t *fnTrans, body *ast.BlockStmt) map[*ast.CallExpr]int {
+	out := map[*ast.CallExpr]int{}
+	k := 0
+	var walk func(n ast.Node, inLoop bool)
+	walk = func(n ast.Node, inLoop bool) {
+		ast.Inspect(n, func(m ast.Node) bool {
+			if m == nil || m == n {
+				return true
+			}
+			switch x := m.(type) {
+			case *ast.ForStmt, *ast.FuncLit, *ast.RangeStmt:
+				// (an unrolled `range []interface{}{…}` too: every copy of the body would need its own index)
+				walk(m, true)
+				return false
+			case *ast.CallExpr:
+				if _, _, ok := t.ifaceCall(x); ok {
+					if inLoop {
+						out[x] = -1
+					} else {
+						out[x] = k
+						k++
+					}
+				}
+			}
+			return true
+		})
+	}
+	walk(body, false)
+	return out
 }
 
 func ensureAbbrev(n ast.Node, nm string, u types.Type) {
@@ -282,6 +452,10 @@ type fnTrans struct {
 	closureName string
 	closureMode bool
 	resGo   []types.Type
+	// `x := []interface{}{a, b}` bound to a local variable that is only ranged over: the elements, evaluated
+	// where the literal stands (bound to x_0, x_1, …), as synthetic identifiers
+	ifaceLits map[types.Object][]ast.Expr
+	sites     map[*ast.CallExpr]int // interface-method call sites -> index
 }
 
 type rangeInfo struct {
@@ -296,7 +470,19 @@ func (t *fnTrans) name(o types.Object) string {
 	}
 	base := lname(o.Name())
 	n := base
-	for i := 1; t.used[n]; i++ {
+	// a local variable named like a package (`signature`) would capture the qualified names `signature.F`
+	clash := func(n string) bool {
+		if t.used[n] {
+			return true
+		}
+		for _, pi := range pkgs {
+			if pi.short == n {
+				return true
+			}
+		}
+		return false
+	}
+	for i := 1; clash(n); i++ {
 		n = fmt.Sprintf("%s_%d", base, i)
 	}
 	t.used[n] = true
@@ -587,6 +773,9 @@ func (t *fnTrans) expr(e ast.Expr) string {
 		if a, ok := t.alias[o]; ok {
 			return t.expr(a)
 		}
+		if _, ok := t.ifaceLits[o]; ok {
+			fail(e, "use of the []interface{} variable %s other than ranging over it", x.Name)
+		}
 		switch oo := o.(type) {
 		case *types.Var:
 			if oo.Parent() == oo.Pkg().Scope() {
@@ -846,6 +1035,15 @@ func (t *fnTrans) call(c *ast.CallExpr) string {
 			}
 			_ = fb
 		}
+		if fb, ok := from.Underlying().(*types.Basic); ok && fb.Info()&types.IsString != 0 {
+			if sl, ok := to.Underlying().(*types.Slice); ok {
+				if eb, ok := sl.Elem().Underlying().(*types.Basic); ok && eb.Kind() == types.Uint8 {
+					// []byte(s): the bytes of the Go string = the UTF-8 encoding of the Lean string
+					return fmt.Sprintf("(strBytes %s)", t.expr(arg))
+				}
+			}
+			fail(c, "conversion of a string to %s", to)
+		}
 		if leanType(c, from) == lt {
 			return t.expr(arg)
 		}
@@ -921,13 +1119,28 @@ func (t *fnTrans) call(c *ast.CallExpr) string {
 			return fmt.Sprintf("(intCmp %s %s)", t.expr(se.X), t.expr(c.Args[0]))
 		}
 	}
+	if recv, fo, ok := t.ifaceCall(c); ok {
+		// a method of an interface value, in expression position: no reader/writer argument
+		_, mut := ifaceMethodType(c, fo.Type().(*types.Signature))
+		if len(mut) > 0 {
+			fail(c, "call of an interface method with a reader/writer argument inside an expression")
+		}
+		parts := []string{t.expr(recv) + "." + lname(fo.Name()), t.siteIndex(c)}
+		for _, a := range c.Args {
+			parts = append(parts, t.expr(a))
+		}
+		return "(" + strings.Join(parts, " ") + ")"
+	}
 	fd, recv := t.callee(c)
 	if fd == nil {
 		fail(c, "call of a function that is not a translation target")
 	}
 	if fd.opaque {
-		t.fd.usesX = fd.pi.short
-		parts := []string{"X." + fd.extField()}
+		if fd.effectful() {
+			fail(c, "call of the opaque function %s, which changes an argument, inside an expression", fd.leanName)
+		}
+		t.useOpaque(c, fd)
+		parts := []string{"X." + fd.extField(t.fd.pi.short)}
 		if recv != nil {
 			parts = append(parts, t.expr(recv))
 		}
@@ -942,8 +1155,61 @@ func (t *fnTrans) call(c *ast.CallExpr) string {
 	return t.callPure(fd, recv, c.Args)
 }
 
-func (fd *fnDecl) extField() string {
-	return strings.ReplaceAll(strings.TrimPrefix(fd.leanName, fd.pi.short+"."), ".", "_")
+// extField: the name of the field for the opaque function fd in the Ext structure of package `home`
+func (fd *fnDecl) extField(home string) string {
+	f := strings.ReplaceAll(strings.TrimPrefix(fd.leanName, fd.pi.short+"."), ".", "_")
+	if fd.pi.short != home {
+		f = fd.pi.short + "_" + f
+	}
+	return f
+}
+
+// useOpaque: the function being translated calls the opaque function fd: it takes the Ext structure of its own
+// package, which gets a field for fd
+func (t *fnTrans) useOpaque(n ast.Node, fd *fnDecl) {
+	home := t.fd.pi.short
+	if t.fd.usesX != "" && t.fd.usesX != home {
+		fail(n, "external functions of two Ext structures (%s, %s) in one function", t.fd.usesX, home)
+	}
+	t.fd.usesX = home
+	addExtField(home, fd)
+}
+
+// siteIndex: the index of an interface-method call site
+func (t *fnTrans) siteIndex(c *ast.CallExpr) string {
+	root := t
+	for root.parent != nil {
+		root = root.parent
+	}
+	k, ok := root.sites[c]
+	if !ok || k < 0 {
+		fail(c, "interface-method call inside a loop or closure (one call-site index cannot stand for several executions)")
+	}
+	return fmt.Sprintf("%d", k)
+}
+
+// extStructName: `<pkg>.Ext` when the structure holds only functions of <pkg> itself (pkcs7.Ext: "the functions
+// of pkcs7 that are not translated"); `<pkg>.Externals` when it holds functions of other packages too. (It
+// cannot be called `signature.Ext`: inside `def signature.F …`, and in proof files that `open signature`, the
+// bare name `Ext` — the prelude's structure with pem.Decode — would then resolve to it.)
+func extStructName(home string) string {
+	for _, fd := range extFields[home] {
+		if fd.pi.short != home {
+			return home + ".Externals"
+		}
+	}
+	return home + ".Ext"
+}
+
+var extFields = map[string][]*fnDecl{} // Ext home package -> opaque functions that its translated functions call
+
+func addExtField(home string, fd *fnDecl) {
+	for _, o := range extFields[home] {
+		if o == fd {
+			return
+		}
+	}
+	extFields[home] = append(extFields[home], fd)
 }
 
 func (t *fnTrans) callPure(fd *fnDecl, recv ast.Expr, args []ast.Expr) string {
@@ -957,6 +1223,9 @@ func (t *fnTrans) callPure(fd *fnDecl, recv ast.Expr, args []ast.Expr) string {
 		parts = append(parts, "E")
 	}
 	if fd.usesX != "" {
+		if t.fd.usesX != "" && t.fd.usesX != fd.usesX {
+			fail(nil, "%s and its callee %s take different Ext structures", t.fd.leanName, fd.leanName)
+		}
 		t.fd.usesX = fd.usesX
 		parts = append(parts, "X")
 	}
@@ -1034,6 +1303,15 @@ func markMutCall(info *types.Info, e ast.Expr, into map[types.Object]bool) {
 	}
 	{
 		tt := &fnTrans{pi: &pkgInfo{info: info}}
+		if _, _, ok := tt.ifaceCall(c); ok {
+			for _, a := range c.Args {
+				if isReaderType(info.Types[a].Type) {
+					if o := rootVar(info, a); o != nil {
+						into[o] = true
+					}
+				}
+			}
+		}
 		if fd, _ := tt.callee(c); fd != nil {
 			for _, i := range fd.mutParams {
 				if i < len(c.Args) {
@@ -1079,6 +1357,13 @@ func rootVar(info *types.Info, e ast.Expr) types.Object {
 			e = x.X
 		case *ast.UnaryExpr:
 			e = x.X
+		case *ast.CallExpr:
+			// a conversion T(x) / (*T)(&x): the variable behind it
+			if tv, ok := info.Types[x.Fun]; ok && tv.IsType() && len(x.Args) == 1 {
+				e = x.Args[0]
+			} else {
+				return nil
+			}
 		default:
 			return nil
 		}
@@ -1288,6 +1573,13 @@ func (t *fnTrans) assign(n ast.Node, lhs ast.Expr, val string) string {
 		if l.Op == token.AND {
 			return t.assign(n, l.X, val)
 		}
+	case *ast.CallExpr:
+		// (*bytes.Buffer)(&x) where x has a type defined as bytes.Buffer: the same Lean value
+		if tv, ok := t.pi.info.Types[l.Fun]; ok && tv.IsType() && len(l.Args) == 1 {
+			if leanType(n, tv.Type) == leanType(n, t.typeOf(l.Args[0])) {
+				return t.assign(n, l.Args[0], val)
+			}
+		}
 	case *ast.Ident:
 		if l.Name == "_" {
 			return ""
@@ -1295,6 +1587,9 @@ func (t *fnTrans) assign(n ast.Node, lhs ast.Expr, val string) string {
 		o := t.pi.info.Uses[l]
 		if o == nil {
 			o = t.pi.info.Defs[l]
+		}
+		if _, ok := t.ifaceLits[o]; ok {
+			fail(n, "assignment to the []interface{} variable %s", l.Name)
 		}
 		if v, ok := o.(*types.Var); ok && v.Pkg() != nil && v.Parent() == v.Pkg().Scope() {
 			fail(n, "assignment to the package-level variable %s", l.Name)
@@ -1353,6 +1648,9 @@ func (t *fnTrans) assignStmt(x *ast.AssignStmt) string {
 		if fl, ok := x.Rhs[0].(*ast.FuncLit); ok && x.Tok == token.DEFINE && len(x.Lhs) == 1 {
 			t.defineClosure(x.Lhs[0].(*ast.Ident), fl)
 			return ""
+		}
+		if cl, ok := x.Rhs[0].(*ast.CompositeLit); ok && x.Tok == token.DEFINE && len(x.Lhs) == 1 && isIfaceSliceLit(t, cl) {
+			return t.defineIfaceLit(x.Lhs[0].(*ast.Ident), cl)
 		}
 		if ce, ok := x.Rhs[0].(*ast.CallExpr); ok {
 			if pre, vals, ok := t.effectCall(ce); ok {
@@ -1857,7 +2155,7 @@ func (t *fnTrans) rangeStmt(x *ast.RangeStmt, after []ast.Stmt, c ctx) string {
 		hb.WriteString(" (E : Ext)")
 	}
 	if t.fd.usesX != "" {
-		fmt.Fprintf(&hb, " (X : %s.Ext)", t.fd.usesX)
+		fmt.Fprintf(&hb, " (X : %s)", extStructName(t.fd.usesX))
 	}
 	for _, o := range caps {
 		fmt.Fprintf(&hb, " (%s : %s)", t.name(o), leanType(x, o.Type()))
@@ -2056,23 +2354,33 @@ func computeUsesExt() {
 }
 
 func computeUsesX() {
+	// the Ext structure of a translated function is the one of its own package; it holds a field for every
+	// opaque function that a translated function of that package calls
 	changed := true
 	for changed {
 		changed = false
 		for _, fd := range targets {
-			if fd.usesX != "" || fd.opaque {
+			if fd.opaque {
 				continue
 			}
 			ast.Inspect(fd.decl.Body, func(n ast.Node) bool {
 				if c, ok := n.(*ast.CallExpr); ok {
 					t := &fnTrans{fd: fd, pi: fd.pi}
 					if cd, _ := t.callee(c); cd != nil {
-						if cd.opaque && fd.usesX == "" {
-							fd.usesX = cd.pi.short
-							changed = true
-						} else if cd.usesX != "" && fd.usesX == "" {
-							fd.usesX = cd.usesX
-							changed = true
+						want := ""
+						if cd.opaque {
+							want = fd.pi.short
+							addExtField(want, cd)
+						} else if cd.usesX != "" {
+							want = cd.usesX
+						}
+						if want != "" {
+							if fd.usesX == "" {
+								fd.usesX = want
+								changed = true
+							} else if fd.usesX != want && fd.xConflict == "" {
+								fd.xConflict = fmt.Sprintf("external functions of two Ext structures (%s, %s) in one function", fd.usesX, want)
+							}
 						}
 					}
 				}
@@ -2094,7 +2402,15 @@ func translate(fd *fnDecl) {
 		}
 	}()
 	t := &fnTrans{fd: fd, pi: fd.pi, names: map[types.Object]string{}, used: map[string]bool{"E": true, "X": true, "fuel": true, "pre": true, "rest": true, "cur": true}, deps: map[string]bool{},
-		alias: map[types.Object]ast.Expr{}, keyConst: map[types.Object]int{}, closures: map[types.Object]*closureInfo{}}
+		alias: map[types.Object]ast.Expr{}, keyConst: map[types.Object]int{}, closures: map[types.Object]*closureInfo{},
+		ifaceLits: map[types.Object][]ast.Expr{}}
+	t.sites = ifaceSites(t, fd.decl.Body)
+	if fd.xConflict != "" {
+		fail(fd.decl, "%s", fd.xConflict)
+	}
+	if n := ambientCalls(fd, map[*fnDecl]bool{}); n > 1 {
+		fail(fd.decl, "more than one call of a nullary external function (a constant of the Ext value) can be reached")
+	}
 	sig := fd.obj.Type().(*types.Signature)
 	var params []string
 	if fd.usesFuel {
@@ -2104,7 +2420,7 @@ func translate(fd *fnDecl) {
 		params = append(params, "(E : Ext)")
 	}
 	if fd.usesX != "" {
-		params = append(params, fmt.Sprintf("(X : %s.Ext)", fd.usesX))
+		params = append(params, fmt.Sprintf("(X : %s)", extStructName(fd.usesX)))
 	}
 	if fd.decl.Recv != nil {
 		if len(fd.decl.Recv.List[0].Names) > 0 {
@@ -2137,9 +2453,14 @@ func translate(fd *fnDecl) {
 		if r.Name() != "" {
 			fail(fd.decl, "named results")
 		}
-		lt := leanType(fd.decl, r.Type())
+		rty := r.Type()
+		if _, isI := rty.Underlying().(*types.Interface); isI && !isErrorType(rty) && !isReaderType(rty) {
+			// an interface-typed result: represented by the concrete value stored in it
+			rty = t.concreteResult(i)
+		}
+		lt := leanType(fd.decl, rty)
 		t.resTys = append(t.resTys, lt)
-		t.resGo = append(t.resGo, r.Type())
+		t.resGo = append(t.resGo, rty)
 		rtys = append(rtys, lt)
 	}
 	t.retType = "Unit"
@@ -2168,6 +2489,78 @@ func translate(fd *fnDecl) {
 }
 
 var repoRoot string
+
+// concreteResult: the concrete type that every `return` of the function stores in its i-th (interface-typed)
+// result; `nil` is allowed besides (it becomes the zero value of that type)
+func (t *fnTrans) concreteResult(i int) types.Type {
+	var found types.Type
+	ast.Inspect(t.fd.decl.Body, func(n ast.Node) bool {
+		switch x := n.(type) {
+		case *ast.FuncLit:
+			return false
+		case *ast.ReturnStmt:
+			if i >= len(x.Results) {
+				fail(x, "return of a multi-valued call in a function with an interface-typed result")
+			}
+			r := x.Results[i]
+			if t.isNil(r) {
+				return true
+			}
+			rt := t.typeOf(r)
+			if _, isI := rt.Underlying().(*types.Interface); isI {
+				fail(r, "an interface value is passed on as a result")
+			}
+			if found != nil && !types.Identical(found, rt) {
+				fail(r, "the interface-typed result holds values of different types (%s, %s)", found, rt)
+			}
+			found = rt
+		}
+		return true
+	})
+	if found == nil {
+		fail(t.fd.decl, "interface-typed result that is always nil")
+	}
+	return found
+}
+
+// ambientCalls: how many calls of nullary opaque functions (values of the environment: the clock) fd can
+// reach, syntactically; a call inside a loop or closure counts twice
+func ambientCalls(fd *fnDecl, seen map[*fnDecl]bool) int {
+	if fd.opaque || fd.decl == nil || seen[fd] {
+		return 0
+	}
+	seen[fd] = true
+	defer delete(seen, fd)
+	total := 0
+	var walk func(n ast.Node, w int)
+	walk = func(n ast.Node, w int) {
+		ast.Inspect(n, func(m ast.Node) bool {
+			if m == nil || m == n {
+				return true
+			}
+			switch x := m.(type) {
+			case *ast.ForStmt, *ast.RangeStmt, *ast.FuncLit:
+				walk(m, 2)
+				return false
+			case *ast.CallExpr:
+				tt := &fnTrans{fd: fd, pi: fd.pi}
+				if cd, _ := tt.callee(x); cd != nil {
+					if cd.opaque {
+						sg := cd.obj.Type().(*types.Signature)
+						if sg.Recv() == nil && sg.Params().Len() == 0 {
+							total += w
+						}
+					} else {
+						total += w * ambientCalls(cd, seen)
+					}
+				}
+			}
+			return true
+		})
+	}
+	walk(fd.decl.Body, 1)
+	return total
+}
 
 // addHelperTargets: a function of a loaded package that a target calls and that is not listed itself (a helper
 // that was extracted, an unexported method) becomes a target too, so that extracting or inlining a helper does
@@ -2244,20 +2637,32 @@ func addHelperTargets() {
 // extStructs: one `<pkg>.Ext` structure per package with opaque targets (functions that are not translated:
 // cryptography, parsers); a field per function, typed from its Go signature
 func extStructs() string {
-	byPkg := map[string][]*fnDecl{}
 	var pk []string
-	for _, fd := range targets {
-		if fd.opaque {
-			if _, ok := byPkg[fd.pi.short]; !ok {
-				pk = append(pk, fd.pi.short)
-			}
-			byPkg[fd.pi.short] = append(byPkg[fd.pi.short], fd)
-		}
+	for p := range extFields {
+		pk = append(pk, p)
 	}
+	// packages in the order of their first opaque function in targets.json
+	rank := func(fd *fnDecl) int {
+		for i, o := range targets {
+			if o == fd {
+				return i
+			}
+		}
+		return len(targets)
+	}
+	for _, p := range pk {
+		fs := extFields[p]
+		sort.SliceStable(fs, func(i, j int) bool { return rank(fs[i]) < rank(fs[j]) })
+	}
+	sort.Slice(pk, func(i, j int) bool { return rank(extFields[pk[i]][0]) < rank(extFields[pk[j]][0]) })
 	var b strings.Builder
 	for _, p := range pk {
-		fmt.Fprintf(&b, "/-- functions of package %s that are not translated (external behaviour, a parameter of the translated code) -/\nstructure %s.Ext where\n", p, p)
-		for _, fd := range byPkg[p] {
+		if nm := extStructName(p); nm != p+".Ext" {
+			fmt.Fprintf(&b, "/-- functions that the translated code of package %s calls and that are not translated (external\n    behaviour, a parameter of the translated code) -/\nstructure %s where\n", p, nm)
+		} else {
+			fmt.Fprintf(&b, "/-- functions of package %s that are not translated (external behaviour, a parameter of the translated code) -/\nstructure %s.Ext where\n", p, p)
+		}
+		for _, fd := range extFields[p] {
 			sig := fd.obj.Type().(*types.Signature)
 			var tys []string
 			if sig.Recv() != nil {
@@ -2267,6 +2672,10 @@ func extStructs() string {
 				tys = append(tys, leanType(fd.decl, sig.Params().At(i).Type()))
 			}
 			var rs []string
+			// arguments that the function changes (a *cryptobyte.String, a reader) come back first
+			for _, i := range fd.mutParams {
+				rs = append(rs, leanType(fd.decl, sig.Params().At(i).Type()))
+			}
 			for i := 0; i < sig.Results().Len(); i++ {
 				rs = append(rs, leanType(fd.decl, sig.Results().At(i).Type()))
 			}
@@ -2274,7 +2683,7 @@ func extStructs() string {
 			if len(rs) > 0 {
 				res = strings.Join(rs, " × ")
 			}
-			fmt.Fprintf(&b, "  %s : %s\n", fd.extField(), strings.Join(append(tys, res), " → "))
+			fmt.Fprintf(&b, "  %s : %s\n", fd.extField(p), strings.Join(append(tys, res), " → "))
 		}
 		b.WriteString("\n")
 	}
@@ -2301,6 +2710,7 @@ func main() {
 	os.Chdir(*repo)
 	build.Default.Dir = *repo
 	imp := importer.ForCompiler(fset, "source", nil)
+	gImp = imp
 	type miss struct{ Target, Reason string }
 	var skipped []miss
 	for _, tg := range tl {
@@ -2394,6 +2804,7 @@ func main() {
 	for _, fd := range targets {
 		visit(fd)
 	}
+	extSrc := extStructs() // before the structures are written: a type met only here is declared too
 	var b strings.Builder
 	b.WriteString("/- GENERATED by tools/go2lean from the go-uefi working tree on every run. Do not edit. -/\nimport GoUefi.GenPrelude\nset_option linter.unusedVariables false\nnamespace GoUefi.Gen\n\n")
 	for _, n := range structOrd {
@@ -2404,7 +2815,7 @@ func main() {
 		b.WriteString(globals[n])
 		b.WriteString("\n")
 	}
-	b.WriteString(extStructs())
+	b.WriteString(extSrc)
 	for _, n := range decoderOrd {
 		b.WriteString(decoders[n])
 		b.WriteString("\n")
